@@ -117,6 +117,7 @@ def rand_link_payload(rng):
     prods = dict(list(arts.items())[: n // 2])
     prods[rstr(rng, 5) + "p"] = {"sha256": "%064x" % rng.getrandbits(256), "md5": "%032x" % rng.getrandbits(128)}
     byp = rng.choice([{}, {"return-value": rng.choice([0, 1, 255, 10**20]), "stdout": rstr(rng, 30), "stderr": ""},
+                      {"return-value": rng.choice([0, 1]), "interactive": rng.choice([False, True]), "cached": rng.choice([False, True]), "stdout": "", "stderr": ""},
                       {"nested": {"a": [1, {"b": rstr(rng)}], "e": {}}, "return-value": 0}])
     return {"name": rstr(rng, 6) or "n", "materials": arts, "products": prods, "byproducts": byp,
             "command": [rstr(rng, 9) for _ in range(rng.randrange(0, 4))],
